@@ -304,6 +304,19 @@ func TestC08(t *testing.T) {
 			jobs = append(jobs, djob{len(streams) - 1, c, rs, data, "huge", 0, 0})
 		}
 	}
+	// a record beyond a megabyte (a recorded response body of 1.5 MiB), first and last: nothing on the path may
+	// assume that the first record fits some budget
+	giant := vegeta.Result{Attack: "giant", Seq: 10, Code: 200, Timestamp: time.Date(2024, 3, 1, 12, 0, 0, 9, time.UTC), Latency: time.Millisecond,
+		BytesIn: 3 << 19, Body: cresBigBody(3 << 19), Method: "GET", URL: "http://giant/"}
+	for gi, rs := range [][]vegeta.Result{{giant, p[1]}, {p[1], giant}} {
+		streams = append(streams, []int{-10 - gi})
+		for _, c := range cresCodecs {
+			data := cresEncode(c.name, rs)
+			R.Trans(len(rs))
+			R.State(1)
+			jobs = append(jobs, djob{len(streams) - 1, c, rs, data, "giant", 0, 0})
+		}
+	}
 	out := make([][]c08Viol, len(jobs))
 	ev.Parallel(len(jobs), 16, func(ji int) {
 		j := jobs[ji]
@@ -335,6 +348,10 @@ func TestC08(t *testing.T) {
 				if k > 0 && k < len(j.data) {
 					run(fmt.Sprintf("chunks (%d, rest)", k), &c08ChunkReader{data: j.data, sizes: []int{k}}, true)
 				}
+			}
+		case "giant":
+			for _, f := range []int{4096, 1 << 20, 1<<20 + 1, 4 << 20} {
+				run(fmt.Sprintf("fixed chunks of %d", f), &c08ChunkReader{data: j.data, fixed: f}, f < len(j.data))
 			}
 		case "three":
 			for a := j.lo; a < j.hi; a++ {
